@@ -495,6 +495,11 @@ func indent(s string) string { return strings.ReplaceAll(s, "\n", "\n  ") }
 func startWorker(self string, m *Monitor, tier string, seed int64, i, n int, dir string) *workerState {
 	logPath := filepath.Join(dir, fmt.Sprintf("w%d.log", i))
 	lf, _ := os.Create(logPath)
+	if m.WorkerBin != nil {
+		if b := m.WorkerBin(self, i); b != "" {
+			self = b
+		}
+	}
 	cmd := exec.Command(self, "-worker", strconv.Itoa(i), "-n", strconv.Itoa(n), "-dir", dir, "-tier", tier, "-seed", strconv.FormatInt(seed, 10))
 	cmd.Stdout = lf
 	cmd.Stderr = lf
